@@ -79,7 +79,8 @@ Proof.
   induction fuel as [|f IH]; intros bound this sig s s' H; [discriminate|].
   cbn [sig_walk] in H. destruct this as [id|]; [|inversion H; reflexivity].
   destruct (find_sgw id (sgws s)) as [w|]; [|discriminate].
-  apply IH in H. rewrite H. destruct ((g_sig w =? sig) && (g_id w <? bound)); [rewrite pending_sdo_actions|]; reflexivity.
+  apply IH in H. rewrite H. destruct ((g_sig w =? sig) && (g_id w <? bound)); [rewrite pending_sdo_actions|]; [|reflexivity].
+  unfold sig_fire. destruct (g_id w <? 0); reflexivity.
 Qed.
 
 Lemma pending_dispatch_sigs : forall fuel sigs s s', dispatch_sigs c env fuel sigs s = Some s' -> pending s' = pending s.
@@ -145,7 +146,8 @@ Proof.
   - eapply stick_pending; eassumption.
   - inversion H; subst. assumption.
   - inversion H; subst. assumption.
-  - eapply run_passes_pending; [|exact H]. exact Hp.
+  - destruct (run_passes fixed_cfg env fuel rk _) as [s2|] eqn:E; [|discriminate]. inversion H; subst.
+    cbn [pending up_sgws]. eapply run_passes_pending; [|exact E]. exact Hp.
 Qed.
 
 Lemma fold_sdo_op_none : forall cf env fuel ops, fold_left (sdo_op cf env fuel) ops None = None.
@@ -500,10 +502,11 @@ Proof.
   set (s1 := up_cursor s (sgw_after id0 (sgws s))) in H.
   assert (H1 : keeps id s s1) by (destruct Hd as [Hn Hlt]; split; [split; [exact Hn|exact Hlt]|reflexivity]).
   destruct ((g_sig w =? sig) && (g_id w <? bound)).
-  - set (s2 := semit s1 id0 KSig EV_FIRE sig) in H.
+  - set (s2 := sig_fire s1 w sig) in H.
     assert (H2 : keeps id s1 s2).
-    { destruct (proj1 H1) as [Hn Hlt]. split; [split; [exact Hn|exact Hlt]|]. unfold s2. apply fires_other. exact Hw. }
-    pose proof (keeps_sdo_actions id (env (g_cb w)) s2 (proj1 H2)) as H3.
+    { destruct (proj1 H1) as [Hn Hlt]. unfold s2, sig_fire. destruct (g_id w <? 0); [apply keeps_refl; split; assumption|].
+      split; [split; [exact Hn|exact Hlt]|]. rewrite Hid. apply fires_other. exact Hw. }
+    pose proof (keeps_sdo_actions id (cb_acts env w) s2 (proj1 H2)) as H3.
     eapply keeps_trans; [exact H1|]. eapply keeps_trans; [exact H2|]. eapply keeps_trans; [exact H3|].
     eapply IH; [exact (proj1 H3)|exact H].
   - eapply keeps_trans; [exact H1|]. eapply IH; [exact (proj1 H1)|exact H].
@@ -569,9 +572,20 @@ Qed.
 
 (* C18_cancelled_not_invoked: once a watch is gone -- cancelled by anyone, or a deferred
    callback that has had its turn -- no later step of any iteration invokes it *)
-Lemma gone_never_invoked : forall id fuel ops s s', dead s id ->
+Lemma keeps_sgws_sub : forall id s v, dead s id -> 0 <= id ->
+  (forall x, In x (map g_id v) -> In x (map g_id (sgws s)) \/ x = INT_ID) -> keeps id s (up_sgws s v).
+Proof.
+  intros id s v [Hn Hlt] Hid Hsub. split; [split; [|exact Hlt]|reflexivity].
+  unfold live_ids in *. cbn [iows sgws dlaters drun up_sgws]. intros Hin. apply Hn.
+  apply in_app_or in Hin. apply in_or_app. destruct Hin as [Hin|Hin]; [left; exact Hin|right].
+  apply in_app_or in Hin. apply in_or_app. destruct Hin as [Hin|Hin]; [left|right; exact Hin].
+  destruct (Hsub id Hin) as [A|A]; [exact A|unfold INT_ID in A; lia].
+Qed.
+
+Lemma gone_never_invoked : forall id fuel ops s s', 0 <= id -> dead s id ->
   fold_left (sdo_op c env fuel) ops (Some s) = Some s' -> keeps id s s'.
 Proof.
+  intros id fuel ops s s' Hid. revert s s'.
   induction ops as [|o r IH]; intros s s' Hd H.
   - inversion H; subst. apply keeps_refl. assumption.
   - cbn [fold_left] in H.
@@ -582,8 +596,14 @@ Proof.
       - eapply keeps_stick; eassumption.
       - inversion E; subst. destruct Hd as [Hn Hlt]. split; [split; [exact Hn|exact Hlt]|reflexivity].
       - inversion E; subst. destruct Hd as [Hn Hlt]. split; [split; [exact Hn|exact Hlt]|reflexivity].
-      - pose proof (keeps_running id s true Hd) as H0. eapply keeps_trans; [exact H0|].
-        eapply keeps_run_passes; [exact (proj1 H0)|exact E]. }
+      - pose proof (keeps_running id s true Hd) as H0.
+        destruct (run_passes c env fuel rk _) as [s2|] eqn:Er; [|discriminate]. inversion E; subst s1.
+        assert (Ha : keeps id (up_running s true) (up_sgws (up_running s true) (remove_sgw INT_ID (sgws s) ++ [int_watch]))).
+        { apply keeps_sgws_sub; [exact (proj1 H0)|exact Hid|]. intros x Hx. rewrite map_app in Hx. apply in_app_or in Hx.
+          destruct Hx as [Hx|[Hx|[]]]; [left; eapply in_remove_sgw; exact Hx|right; symmetry; exact Hx]. }
+        pose proof (keeps_run_passes id fuel rk _ _ (proj1 Ha) Er) as Hb.
+        eapply keeps_trans; [exact H0|]. eapply keeps_trans; [exact Ha|]. eapply keeps_trans; [exact Hb|].
+        apply keeps_sgws_sub; [exact (proj1 Hb)|exact Hid|]. intros x Hx. left. eapply in_remove_sgw. exact Hx. }
     eapply keeps_trans; [exact H1|]. eapply IH; [exact (proj1 H1)|exact H].
 Qed.
 
@@ -762,7 +782,7 @@ Qed.
    [sig] among the remaining ones, in list order, and changes nothing else that matters *)
 Lemma sig_walk_all : forall post pre w fuel bound sig s,
   sgws s = pre ++ w :: post -> NoDup (map g_id (sgws s)) ->
-  (forall v, In v (sgws s) -> g_id v < bound) ->
+  (forall v, In v (sgws s) -> 0 <= g_id v < bound) ->
   (forall v, In v (sgws s) -> forallb sig_quiet (env (g_cb v)) = true) ->
   (length post + 1 < fuel)%nat ->
   exists s', sig_walk c env fuel bound (Some (g_id w)) sig s = Some s' /\
@@ -774,8 +794,10 @@ Proof.
     rewrite Hl in Hnd. destruct (nodup_mid pre w [] Hnd) as [Hn _].
     rewrite Hl, (find_sgw_mid pre w [] Hn), (sgw_after_mid pre w [] Hn). rewrite <- Hl.
     assert (Hqw : forallb sig_quiet (env (g_cb w)) = true) by (apply Hq; rewrite Hl; apply in_or_app; right; left; reflexivity).
-    assert (Hbw : (g_id w <? bound) = true) by (apply Z.ltb_lt; apply Hbd; rewrite Hl; apply in_or_app; right; left; reflexivity).
-    rewrite Hbw, andb_true_r.
+    assert (Hbw0 : 0 <= g_id w < bound) by (apply Hbd; rewrite Hl; apply in_or_app; right; left; reflexivity).
+    assert (Hbw : (g_id w <? bound) = true) by (apply Z.ltb_lt; lia).
+    assert (Hnn : (g_id w <? 0) = false) by (apply Z.ltb_ge; lia).
+    rewrite Hbw, andb_true_r. unfold sig_fire, cb_acts. rewrite Hnn.
     cbn [filter]. destruct (g_sig w =? sig) eqn:E.
     + destruct (quiet_actions (env (g_cb w)) (semit (up_cursor s None) (g_id w) KSig EV_FIRE sig) Hqw) as [A1 [A2 [A3 A4]]].
       rewrite A2. cbn [cursor semit up_slog up_cursor]. eexists. split; [reflexivity|].
@@ -788,8 +810,10 @@ Proof.
     rewrite Hl, (find_sgw_mid pre w (n :: post) Hn), (sgw_after_mid pre w (n :: post) Hn). rewrite <- Hl.
     assert (Hqw : forallb sig_quiet (env (g_cb w)) = true) by (apply Hq; rewrite Hl; apply in_or_app; right; left; reflexivity).
     assert (Hl2 : pre ++ w :: n :: post = (pre ++ [w]) ++ n :: post) by (rewrite <- app_assoc; reflexivity).
-    assert (Hbw : (g_id w <? bound) = true) by (apply Z.ltb_lt; apply Hbd; rewrite Hl; apply in_or_app; right; left; reflexivity).
-    rewrite Hbw, andb_true_r.
+    assert (Hbw0 : 0 <= g_id w < bound) by (apply Hbd; rewrite Hl; apply in_or_app; right; left; reflexivity).
+    assert (Hbw : (g_id w <? bound) = true) by (apply Z.ltb_lt; lia).
+    assert (Hnn : (g_id w <? 0) = false) by (apply Z.ltb_ge; lia).
+    rewrite Hbw, andb_true_r. unfold sig_fire, cb_acts. rewrite Hnn.
     cbn [filter]. destruct (g_sig w =? sig) eqn:E.
     + destruct (quiet_actions (env (g_cb w)) (semit (up_cursor s (Some (g_id n))) (g_id w) KSig EV_FIRE sig) Hqw) as [A1 [A2 [A3 A4]]].
       rewrite A2. cbn [cursor semit up_slog up_cursor].
@@ -838,7 +862,7 @@ Definition invoked (s : sst) (sigs : list Z) : list obs :=
 
 Lemma dispatch_sigs_all : forall sigs fuel s,
   NoDup (map g_id (sgws s)) ->
-  (forall v, In v (sgws s) -> g_id v < snext s) ->
+  (forall v, In v (sgws s) -> 0 <= g_id v < snext s) ->
   (forall v, In v (sgws s) -> forallb sig_quiet (env (g_cb v)) = true) ->
   (length (sgws s) + 1 < fuel)%nat ->
   exists s', dispatch_sigs c env fuel sigs s = Some s' /\
@@ -877,7 +901,7 @@ Qed.
    for callbacks that do not themselves cancel or register signal watches *)
 Theorem dispatch_invokes_all : forall fuel s,
   NoDup (map g_id (sgws s)) ->
-  (forall v, In v (sgws s) -> g_id v < snext s) ->
+  (forall v, In v (sgws s) -> 0 <= g_id v < snext s) ->
   (forall v, In v (sgws s) -> forallb sig_quiet (env (g_cb v)) = true) ->
   (length (sgws s) + 1 < fuel)%nat ->
   exists s', dispatch_signals c env fuel s = Some s' /\
